@@ -25,6 +25,9 @@ Creds == [
   selfsignedc1             |-> [issued |-> FALSE, cn |-> ""],
   othercac1                |-> [issued |-> FALSE, cn |-> ""],
   othercasigner2           |-> [issued |-> FALSE, cn |-> ""],
+  \* issued by an authority of the HOST'S trust store (what the operating system trusts for the web), not by the configured one
+  publiccac1               |-> [issued |-> FALSE, cn |-> ""],
+  publiccasigner2          |-> [issued |-> FALSE, cn |-> ""],
   expiredc1                |-> [issued |-> FALSE, cn |-> ""],
   \* an other-authority certificate offered together with a TLS session ticket the caller minted itself, under a ticket key derived
   \* from public material (the server's certificates, the authority's certificate, names); a resumed session is admitted on the
